@@ -13,6 +13,7 @@ import OPModel.Drive.C17
 import OPModel.Drive.C10
 import OPModel.Drive.C11
 import OPModel.Drive.C13
+import OPModel.Drive.C15
 
 open OP
 
@@ -34,6 +35,8 @@ def handle (line : String) : String :=
   | "zones" :: args => Drive.zonesOp args
   | "graphsets" :: args => Drive.graphsets args
   | "slices" :: args => Drive.slicesOp args
+  | "cost" :: args => Drive.cost args
+  | "lmtd" :: args => Drive.lmtdOp args
   | "pinch" :: args => Drive.pinch args
   | "pincht" :: args => Drive.pincht args
   | _ => "bad-op"
